@@ -71,6 +71,11 @@ def special_vectors():
 def gen_from_to(rng, i):
     """(from, to, class) covering the four branches of reb_rotation_init_from_to"""
     sp = special_vectors()
+    # the witnesses of the theorems first (model-level counter-examples replayed on the real code)
+    fixed = {0: ([1.0, 1.0, 1.0], [-1.0, -1.0, -1.0]), 1: ([1.0, 0.0, 0.0], [-1.0, 0.0, 0.0]), 2: ([0.0, 0.0, 1.0], [0.0, 0.0, -1.0]),
+             3: ([0.0, 1.0, 0.0], [0.0, -2.0, 0.0]), 4: ([1.0, 2.0, 3.0], [-1.0, -2.0, -3.0]), 5: ([3.0, 0.0, 4.0], [-3.0, 0.0, -4.0])}
+    if i in fixed:
+        return fixed[i][0], fixed[i][1], "antiparallel-exact"
     k = i % 10
     if k == 0:      # exactly antiparallel, generic direction (F7 class)
         f = rvec(rng)
@@ -213,83 +218,88 @@ def rotations(c, rebound, exe):
 
     # ---------------- primitives + algebraic laws on the real code
     for i in range(n):
-        v, w = rvec(rng), rvec(rng)
-        if i % 7 == 0:
-            v = rng.choice(special_vectors())
-        s = rng.normal() * rng.loguniform(1e-3, 1e3)
-        p, q = runit(rng), runit(rng)
-        if i % 11 == 0:      # arbitrary (non-unit) quaternions for the group operations
-            p = [rng.normal() * 3 for _ in range(4)]
-        V_, W_, P_, Q_ = V(*v), V(*w), mkq(p), mkq(q)
-        add("vmul " + hv(*v, s), vl(F["vec3d_mul"](V_, s)), "vec3d_mul")
-        add("vadd " + hv(*v, *w), vl(F["vec3d_add"](V_, W_)), "vec3d_add")
-        add("cross " + hv(*v, *w), vl(F["vec3d_cross"](V_, W_)), "vec3d_cross")
-        add("dot " + hv(*v, *w), [F["vec3d_dot"](V_, W_)], "vec3d_dot")
-        add("len2 " + hv(*v), [F["vec3d_length_squared"](V_)], "vec3d_length_squared")
-        add("normalize " + hv(*v), vl(F["vec3d_normalize"](V_)), "vec3d_normalize")
-        pq = F["rotation_mul"](P_, Q_)
-        add("qmul " + hv(*p, *q), ql(pq), "rotation_mul")
-        add("qlen2 " + hv(*p), [clib.reb_rotation_length_squared(P_)], "rotation_length_squared")
-        add("conj " + hv(*p), ql(F["rotation_conjugate"](P_)), "rotation_conjugate")
-        add("qnormalize " + hv(*p), ql(F["rotation_normalize"](P_)), "rotation_normalize")
-        pinv = F["rotation_inverse"](P_)
-        add("inverse " + hv(*p), ql(pinv), "rotation_inverse")
-        rv_ = F["vec3d_rotate"](V_, Q_)
-        add("rotate " + hv(*v, *q), vl(rv_), "vec3d_rotate")
-        tmp = V(*v)
-        clib.reb_vec3d_irotate(ctypes.byref(tmp), Q_)
-        if [d2h(x) for x in vl(tmp)] != [d2h(x) for x in vl(rv_)]:
-            c.corr_break("reb_vec3d_irotate and reb_vec3d_rotate disagree", dict(v=v, q=q))
-        c.count(("prim", i % 50))
-        # ---- search: the laws, oracle = exact rational arithmetic on the same doubles
-        sc = max(abs(x) for x in v) or 1.0
-        scw = max(abs(x) for x in w) or 1.0
-        nq = float(sum(Fr(x) ** 2 for x in q))
-        if abs(nq - 1) < 1e-12:
-            M = frot_matrix(q)
-            ev = fapply(M, fr3(v))
-            e = max(abs(float(Fr(a) - b)) for a, b in zip(vl(rv_), ev)) / sc
-            note("rotate_vs_exact_qvq*", e)
+        try:
+            v, w = rvec(rng), rvec(rng)
+            if i % 7 == 0:
+                v = rng.choice(special_vectors())
+            s = rng.normal() * rng.loguniform(1e-3, 1e3)
+            p, q = runit(rng), runit(rng)
+            if i % 11 == 0:      # arbitrary (non-unit) quaternions for the group operations
+                p = [rng.normal() * 3 for _ in range(4)]
+            V_, W_, P_, Q_ = V(*v), V(*w), mkq(p), mkq(q)
+            add("vmul " + hv(*v, s), vl(F["vec3d_mul"](V_, s)), "vec3d_mul")
+            add("vadd " + hv(*v, *w), vl(F["vec3d_add"](V_, W_)), "vec3d_add")
+            add("cross " + hv(*v, *w), vl(F["vec3d_cross"](V_, W_)), "vec3d_cross")
+            add("dot " + hv(*v, *w), [F["vec3d_dot"](V_, W_)], "vec3d_dot")
+            add("len2 " + hv(*v), [F["vec3d_length_squared"](V_)], "vec3d_length_squared")
+            add("normalize " + hv(*v), vl(F["vec3d_normalize"](V_)), "vec3d_normalize")
+            pq = F["rotation_mul"](P_, Q_)
+            add("qmul " + hv(*p, *q), ql(pq), "rotation_mul")
+            add("qlen2 " + hv(*p), [clib.reb_rotation_length_squared(P_)], "rotation_length_squared")
+            add("conj " + hv(*p), ql(F["rotation_conjugate"](P_)), "rotation_conjugate")
+            add("qnormalize " + hv(*p), ql(F["rotation_normalize"](P_)), "rotation_normalize")
+            pinv = F["rotation_inverse"](P_)
+            add("inverse " + hv(*p), ql(pinv), "rotation_inverse")
+            rv_ = F["vec3d_rotate"](V_, Q_)
+            add("rotate " + hv(*v, *q), vl(rv_), "vec3d_rotate")
+            tmp = V(*v)
+            clib.reb_vec3d_irotate(ctypes.byref(tmp), Q_)
+            if [d2h(x) for x in vl(tmp)] != [d2h(x) for x in vl(rv_)]:
+                c.corr_break("reb_vec3d_irotate and reb_vec3d_rotate disagree", dict(v=v, q=q))
+            c.count(("prim", i % 50))
+            # ---- search: the laws, oracle = exact rational arithmetic on the same doubles
+            sc = max(abs(x) for x in v) or 1.0
+            scw = max(abs(x) for x in w) or 1.0
+            nq = float(sum(Fr(x) ** 2 for x in q))
+            if abs(nq - 1) < 1e-12:
+                M = frot_matrix(q)
+                ev = fapply(M, fr3(v))
+                e = max(abs(float(Fr(a) - b)) for a, b in zip(vl(rv_), ev)) / sc
+                note("rotate_vs_exact_qvq*", e)
+                if not e <= 1e-13:
+                    fails.append(("rotate-spec", "reb_vec3d_rotate differs from q v q^-1", dict(v=v, q=q, got=vl(rv_), err=e)))
+                rw = F["vec3d_rotate"](W_, Q_)
+                d0 = float(fdot(fr3(v), fr3(w)))
+                d1 = float(fdot(fr3(vl(rv_)), fr3(vl(rw))))
+                e = abs(d1 - d0) / (sc * scw)
+                note("dot_preserved", e)
+                if not e <= 1e-13:
+                    fails.append(("rotate-dot", "rotation does not preserve the dot product", dict(v=v, w=w, q=q, before=d0, after=d1)))
+                # cross product covariance (orientation preserved: angular momentum rotates as a vector)
+                cr = F["vec3d_rotate"](V(*[float(x) for x in fcross(fr3(v), fr3(w))]), Q_)
+                c2 = fcross(fr3(vl(rv_)), fr3(vl(rw)))
+                e = max(abs(float(Fr(a) - b)) for a, b in zip(vl(cr), c2)) / (sc * scw)
+                note("cross_covariant", e)
+                if not e <= 1e-12:
+                    fails.append(("rotate-cross", "rotation does not commute with the cross product", dict(v=v, w=w, q=q)))
+                # inverse undoes
+                back = F["vec3d_rotate"](rv_, F["rotation_inverse"](Q_))
+                e = max(abs(a - b) for a, b in zip(vl(back), v)) / sc
+                note("inverse_undoes", e)
+                if not e <= 1e-13:
+                    fails.append(("rotate-inverse", "rotating with the inverse does not undo the rotation", dict(v=v, q=q, back=vl(back))))
+            npf = float(sum(Fr(x) ** 2 for x in p))
+            if abs(nq - 1) < 1e-12 and abs(npf - 1) < 1e-12:
+                a = F["vec3d_rotate"](V_, pq)
+                b = F["vec3d_rotate"](rv_, P_)
+                e = max(abs(x - y) for x, y in zip(vl(a), vl(b))) / sc
+                note("compose", e)
+                if not e <= 1e-13:
+                    fails.append(("rotate-compose", "rotate(p*q) v != rotate p (rotate q v)", dict(v=v, p=p, q=q, a=vl(a), b=vl(b))))
+            # norm multiplicative, q * q^-1 = 1 (any non-zero quaternion)
+            e = abs(float(sum(Fr(x) ** 2 for x in ql(pq))) - npf * nq) / max(npf * nq, 1e-300)
+            note("norm_multiplicative", e)
             if not e <= 1e-13:
-                fails.append(("rotate-spec", "reb_vec3d_rotate differs from q v q^-1", dict(v=v, q=q, got=vl(rv_), err=e)))
-            rw = F["vec3d_rotate"](W_, Q_)
-            d0 = float(fdot(fr3(v), fr3(w)))
-            d1 = float(fdot(fr3(vl(rv_)), fr3(vl(rw))))
-            e = abs(d1 - d0) / (sc * scw)
-            note("dot_preserved", e)
+                fails.append(("norm-mul", "|p q|^2 != |p|^2 |q|^2", dict(p=p, q=q)))
+            one = ql(F["rotation_mul"](P_, pinv))
+            e = max(abs(a - b) for a, b in zip(one, [0, 0, 0, 1]))
+            note("q_times_inverse", e)
             if not e <= 1e-13:
-                fails.append(("rotate-dot", "rotation does not preserve the dot product", dict(v=v, w=w, q=q, before=d0, after=d1)))
-            # cross product covariance (orientation preserved: angular momentum rotates as a vector)
-            cr = F["vec3d_rotate"](V(*[float(x) for x in fcross(fr3(v), fr3(w))]), Q_)
-            c2 = fcross(fr3(vl(rv_)), fr3(vl(rw)))
-            e = max(abs(float(Fr(a) - b)) for a, b in zip(vl(cr), c2)) / (sc * scw)
-            note("cross_covariant", e)
-            if not e <= 1e-12:
-                fails.append(("rotate-cross", "rotation does not commute with the cross product", dict(v=v, w=w, q=q)))
-            # inverse undoes
-            back = F["vec3d_rotate"](rv_, F["rotation_inverse"](Q_))
-            e = max(abs(a - b) for a, b in zip(vl(back), v)) / sc
-            note("inverse_undoes", e)
-            if not e <= 1e-13:
-                fails.append(("rotate-inverse", "rotating with the inverse does not undo the rotation", dict(v=v, q=q, back=vl(back))))
-        npf = float(sum(Fr(x) ** 2 for x in p))
-        if abs(nq - 1) < 1e-12 and abs(npf - 1) < 1e-12:
-            a = F["vec3d_rotate"](V_, pq)
-            b = F["vec3d_rotate"](rv_, P_)
-            e = max(abs(x - y) for x, y in zip(vl(a), vl(b))) / sc
-            note("compose", e)
-            if not e <= 1e-13:
-                fails.append(("rotate-compose", "rotate(p*q) v != rotate p (rotate q v)", dict(v=v, p=p, q=q, a=vl(a), b=vl(b))))
-        # norm multiplicative, q * q^-1 = 1 (any non-zero quaternion)
-        e = abs(float(sum(Fr(x) ** 2 for x in ql(pq))) - npf * nq) / max(npf * nq, 1e-300)
-        note("norm_multiplicative", e)
-        if not e <= 1e-13:
-            fails.append(("norm-mul", "|p q|^2 != |p|^2 |q|^2", dict(p=p, q=q)))
-        one = ql(F["rotation_mul"](P_, pinv))
-        e = max(abs(a - b) for a, b in zip(one, [0, 0, 0, 1]))
-        note("q_times_inverse", e)
-        if not e <= 1e-13:
-            fails.append(("mul-inverse", "p * inverse(p) != identity", dict(p=p, got=one)))
+                fails.append(("mul-inverse", "p * inverse(p) != identity", dict(p=p, got=one)))
+        except (ValueError, OverflowError, ZeroDivisionError) as ex:
+            _lc = locals()
+            fails.append(("nonfinite:rotation-laws", "the real code returned a non-finite value where the oracle expects a number (%r)" % (ex,),
+                          {k_: repr(_lc[k_])[:400] for k_ in ['v', 'w', 'p', 'q', 's'] if k_ in _lc}))
     add("identity", ql(F["rotation_identity"]()), "rotation_identity")
 
     # ---------------- from_to (all branches)
@@ -297,134 +307,174 @@ def rotations(c, rebound, exe):
     variant_votes = {"asfound": 0, "fixed": 0, "both": 0, "neither": 0}
     ft_cases = []
     for i in range(nft):
-        f, t, cls = gen_from_to(rng, i)
-        q = F["rotation_init_from_to"](V(*f), V(*t))
-        qv = ql(q)
-        lines.append("fromto " + hv(*f, *t)); expect.append(" ".join(d2h(x) for x in qv)); meta.append(("fromto", cls))
-        lines.append("fromtofixed " + hv(*f, *t)); expect.append(" ".join(d2h(x) for x in qv)); meta.append(("fromtofixed", cls))
-        ft_cases.append((f, t, cls, qv))
-        hist[cls] = hist.get(cls, 0) + 1
-        c.count(("from_to", cls, i % 40))
-        # ---- search: unit and maps from -> to (oracle: exact rational q v q^-1 on the returned doubles,
-        #      directions normalised with math.fsum / sqrt independent of the C normalisation)
-        lf = math.sqrt(float(sum(Fr(x) ** 2 for x in f)))
-        lt_ = math.sqrt(float(sum(Fr(x) ** 2 for x in t)))
-        if not (lf > 1e-150 and lt_ > 1e-150 and lf < 1e150 and lt_ < 1e150):
-            continue
-        nq = float(sum(Fr(x) ** 2 for x in qv)) if all(x == x for x in qv) else float("nan")
-        # input class of F7: directions antiparallel to within a few ulp (measured exactly)
-        ff, tt = fr3(f), fr3(t)
-        cr2 = sum(x * x for x in fcross(ff, tt))
-        antip = fdot(ff, tt) < 0 and cr2 <= Fr(1, 10 ** 30) * fdot(ff, ff) * fdot(tt, tt)
-        key = "F7:from_to-antiparallel" if antip else "from_to:" + cls
-        bad = None
-        if not abs(nq - 1) <= 1e-13:
-            bad = "from_to rotation is not unit: |q|^2 = %r" % nq
-        else:
-            fn = [x / lf for x in f]
-            tn = [x / lt_ for x in t]
-            # apply through the real code (reb_vec3d_rotate) and through the exact specification
-            got = vl(F["vec3d_rotate"](V(*fn), q))
-            e = max(abs(a - b) for a, b in zip(got, tn))
-            M = frot_matrix(qv)
-            e2 = max(abs(float(a) - b) for a, b in zip(fapply(M, fr3(fn)), tn))
-            note("from_to_maps[" + cls + "]", max(e, e2))
-            tolmap = 1e-13 if cls != "antiparallel-near" else 1e-7
-            if not (e <= tolmap and e2 <= tolmap):
-                bad = "from_to rotation does not map from to to (error %.3g)" % max(e, e2)
-        if cls != "antiparallel-near":
-            note("from_to_norm[" + cls + "]", abs(nq - 1))
-        if bad:
-            fails.append((key, bad, dict(fromv=f, tov=t, q=qv, norm2=nq, cls=cls)))
+        try:
+            f, t, cls = gen_from_to(rng, i)
+            q = F["rotation_init_from_to"](V(*f), V(*t))
+            qv = ql(q)
+            lines.append("fromto " + hv(*f, *t)); expect.append(" ".join(d2h(x) for x in qv)); meta.append(("fromto", cls))
+            lines.append("fromtofixed " + hv(*f, *t)); expect.append(" ".join(d2h(x) for x in qv)); meta.append(("fromtofixed", cls))
+            ft_cases.append((f, t, cls, qv))
+            hist[cls] = hist.get(cls, 0) + 1
+            c.count(("from_to", cls, i % 40))
+            # ---- search: unit and maps from -> to (oracle: exact rational q v q^-1 on the returned doubles,
+            #      directions normalised with math.fsum / sqrt independent of the C normalisation)
+            lf = math.sqrt(float(sum(Fr(x) ** 2 for x in f)))
+            lt_ = math.sqrt(float(sum(Fr(x) ** 2 for x in t)))
+            if not (lf > 1e-150 and lt_ > 1e-150 and lf < 1e150 and lt_ < 1e150):
+                continue
+            nq = float(sum(Fr(x) ** 2 for x in qv)) if all(x == x for x in qv) else float("nan")
+            # input class of F7: directions antiparallel to within a few ulp (measured exactly)
+            ff, tt = fr3(f), fr3(t)
+            cr2 = sum(x * x for x in fcross(ff, tt))
+            antip = fdot(ff, tt) < 0 and cr2 <= Fr(1, 10 ** 30) * fdot(ff, ff) * fdot(tt, tt)
+            key = "from_to:" + cls
+            if antip:
+                # the known defect has a definite signature (theorem c20_from_to_antiparallel_as_found):
+                # r = 0 and |q|^2 = 1 - m^2, m the smallest |component| of the direction.  Anything else
+                # on the same inputs is a different failure and is reported under its own key.
+                m2 = min((x / lf) ** 2 for x in f)
+                sig_ok = all(x == x for x in qv) and qv[3] == 0.0 and abs(nq - (1 - m2)) <= 1e-12
+                key = "F7:from_to-antiparallel" if sig_ok else "from_to:antiparallel-unexpected"
+            bad = None
+            if not abs(nq - 1) <= 1e-13:
+                bad = "from_to rotation is not unit: |q|^2 = %r" % nq
+            else:
+                fn = [x / lf for x in f]
+                tn = [x / lt_ for x in t]
+                # apply through the real code (reb_vec3d_rotate) and through the exact specification
+                got = vl(F["vec3d_rotate"](V(*fn), q))
+                e = max(abs(a - b) for a, b in zip(got, tn))
+                M = frot_matrix(qv)
+                e2 = max(abs(float(a) - b) for a, b in zip(fapply(M, fr3(fn)), tn))
+                note("from_to_maps[" + cls + "]", max(e, e2))
+                tolmap = 1e-13 if cls != "antiparallel-near" else 1e-7
+                if not (e <= tolmap and e2 <= tolmap):
+                    bad = "from_to rotation does not map from to to (error %.3g)" % max(e, e2)
+            if cls != "antiparallel-near":
+                note("from_to_norm[" + cls + "]", abs(nq - 1))
+            if bad:
+                fails.append((key, bad, dict(fromv=f, tov=t, q=qv, norm2=nq, cls=cls)))
+        except (ValueError, OverflowError, ZeroDivisionError) as ex:
+            _lc = locals()
+            fails.append(("nonfinite:from_to", "the real code returned a non-finite value where the oracle expects a number (%r)" % (ex,),
+                          {k_: repr(_lc[k_])[:400] for k_ in ['f', 't', 'cls'] if k_ in _lc}))
 
     # ---------------- angle-axis, orbit, new axes, slerp
     nc = 3000 if c.thorough else 500
     for i in range(nc):
-        ang = rng.choice([0.0, math.pi, -math.pi, math.pi / 2, 2 * math.pi, 1e-9, rng.uniform(-10, 10), rng.uniform(-1e3, 1e3)])
-        ax = rvec(rng) if i % 5 else rng.choice(special_vectors())
-        q = F["rotation_init_angle_axis"](ang, V(*ax))
-        add("angleaxis " + hv(ang, *ax), ql(q), "rotation_init_angle_axis")
-        c.count(("angle_axis", i % 40))
-        la = math.sqrt(float(sum(Fr(x) ** 2 for x in ax)))
-        if 1e-150 < la < 1e150:
+        try:
+            ang = rng.choice([0.0, math.pi, -math.pi, math.pi / 2, 2 * math.pi, 1e-9, rng.uniform(-10, 10), rng.uniform(-1e3, 1e3)])
+            ax = rvec(rng) if i % 5 else rng.choice(special_vectors())
+            q = F["rotation_init_angle_axis"](ang, V(*ax))
+            add("angleaxis " + hv(ang, *ax), ql(q), "rotation_init_angle_axis")
+            c.count(("angle_axis", i % 40))
+            la = math.sqrt(float(sum(Fr(x) ** 2 for x in ax)))
+            if 1e-150 < la < 1e150:
+                nq = float(sum(Fr(x) ** 2 for x in ql(q)))
+                note("angle_axis_norm", abs(nq - 1))
+                # oracle: Rodrigues formula with math.cos/math.sin of the full angle
+                an = [x / la for x in ax]
+                v = rvec(rng, 1.0)
+                got = vl(F["vec3d_rotate"](V(*v), q))
+                cr = [an[1] * v[2] - an[2] * v[1], an[2] * v[0] - an[0] * v[2], an[0] * v[1] - an[1] * v[0]]
+                dt = sum(a * b for a, b in zip(an, v))
+                want = [v[k] * math.cos(ang) + cr[k] * math.sin(ang) + an[k] * dt * (1 - math.cos(ang)) for k in range(3)]
+                e = max(abs(a - b) for a, b in zip(got, want))
+                note("angle_axis_rodrigues", e / max(1.0, abs(ang)))
+                if not abs(nq - 1) <= 1e-13 or not e <= 1e-12 * max(1.0, abs(ang)):
+                    fails.append(("angle-axis", "angle-axis rotation is not the Rodrigues rotation / not unit", dict(angle=ang, axis=ax, q=ql(q), v=v, got=got, want=want)))
+            Om, inc, om = [rng.choice([0.0, math.pi, math.pi / 2, rng.uniform(-7, 7)]) for _ in range(3)]
+            q = F["rotation_init_orbit"](Om, inc, om)
+            add("orbit " + hv(Om, inc, om), ql(q), "rotation_init_orbit")
+            c.count(("orbit", i % 40))
             nq = float(sum(Fr(x) ** 2 for x in ql(q)))
-            note("angle_axis_norm", abs(nq - 1))
-            # oracle: Rodrigues formula with math.cos/math.sin of the full angle
-            an = [x / la for x in ax]
+            note("orbit_norm", abs(nq - 1))
+            # oracle: Murray & Dermott eq. 2.119-2.121 with full-angle sines and cosines
+            cO, sO, ci, si, co, so = math.cos(Om), math.sin(Om), math.cos(inc), math.sin(inc), math.cos(om), math.sin(om)
+            P = [[cO * co - sO * so * ci, -cO * so - sO * co * ci, sO * si],
+                 [sO * co + cO * so * ci, -sO * so + cO * co * ci, -cO * si],
+                 [so * si, co * si, ci]]
             v = rvec(rng, 1.0)
             got = vl(F["vec3d_rotate"](V(*v), q))
-            cr = [an[1] * v[2] - an[2] * v[1], an[2] * v[0] - an[0] * v[2], an[0] * v[1] - an[1] * v[0]]
-            dt = sum(a * b for a, b in zip(an, v))
-            want = [v[k] * math.cos(ang) + cr[k] * math.sin(ang) + an[k] * dt * (1 - math.cos(ang)) for k in range(3)]
+            want = [sum(P[a][b] * v[b] for b in range(3)) for a in range(3)]
             e = max(abs(a - b) for a, b in zip(got, want))
-            note("angle_axis_rodrigues", e / max(1.0, abs(ang)))
-            if not abs(nq - 1) <= 1e-13 or not e <= 1e-12 * max(1.0, abs(ang)):
-                fails.append(("angle-axis", "angle-axis rotation is not the Rodrigues rotation / not unit", dict(angle=ang, axis=ax, q=ql(q), v=v, got=got, want=want)))
-        Om, inc, om = [rng.choice([0.0, math.pi, math.pi / 2, rng.uniform(-7, 7)]) for _ in range(3)]
-        q = F["rotation_init_orbit"](Om, inc, om)
-        add("orbit " + hv(Om, inc, om), ql(q), "rotation_init_orbit")
-        c.count(("orbit", i % 40))
-        nq = float(sum(Fr(x) ** 2 for x in ql(q)))
-        note("orbit_norm", abs(nq - 1))
-        # oracle: Murray & Dermott eq. 2.119-2.121 with full-angle sines and cosines
-        cO, sO, ci, si, co, so = math.cos(Om), math.sin(Om), math.cos(inc), math.sin(inc), math.cos(om), math.sin(om)
-        P = [[cO * co - sO * so * ci, -cO * so - sO * co * ci, sO * si],
-             [sO * co + cO * so * ci, -sO * so + cO * co * ci, -cO * si],
-             [so * si, co * si, ci]]
-        v = rvec(rng, 1.0)
-        got = vl(F["vec3d_rotate"](V(*v), q))
-        want = [sum(P[a][b] * v[b] for b in range(3)) for a in range(3)]
-        e = max(abs(a - b) for a, b in zip(got, want))
-        note("orbit_MD2.121", e)
-        if not abs(nq - 1) <= 1e-13 or not e <= 1e-13:
-            fails.append(("orbit", "Rotation.orbit is not Murray-Dermott 2.121 / not unit", dict(Omega=Om, inc=inc, omega=om, q=ql(q), v=v, got=got, want=want)))
-        # to_new_axes
-        kind = i % 6
-        if kind == 0:
-            nz = rng.choice([[0.0, 0.0, -1.0], [0.0, 0.0, 1.0], [0.0, 0.0, -3.0], [1.0, 0.0, 0.0], [0.0, -2.0, 0.0]])
-        else:
-            nz = rvec(rng)
-        nx = rvec(rng)
-        if kind == 1:   # newx such that the rotated newx is antiparallel to x
-            nx = [-1.0, 0.0, 0.0] if nz[0] == 0 else nx
-        if kind == 2:
-            nz = [0.0, 0.0, -1.0]; nx = [-1.0, 0.0, 0.0]
-        q = F["rotation_init_to_new_axes"](V(*nz), V(*nx))
-        for vv in ("00", "10", "01", "11"):
-            lines.append("newaxes" + vv + " " + hv(*nz, *nx)); expect.append(" ".join(d2h(x) for x in ql(q))); meta.append(("newaxes" + vv, "newaxes"))
-        c.count(("new_axes", i % 40))
-        lz = math.sqrt(sum(x * x for x in nz))
-        zn = [x / lz for x in nz]
-        dp = sum(a * b for a, b in zip(zn, nx))
-        xo = [a - dp * b for a, b in zip(nx, zn)]
-        lx = math.sqrt(sum(x * x for x in xo))
-        if lx > 1e-6 * math.sqrt(sum(x * x for x in nx)) and all(x == x for x in ql(q)):
-            xn = [x / lx for x in xo]
-            nq = float(sum(Fr(x) ** 2 for x in ql(q)))
-            gz = vl(F["vec3d_rotate"](V(*zn), q))
-            gx = vl(F["vec3d_rotate"](V(*xn), q))
-            e = max(max(abs(a - b) for a, b in zip(gz, [0, 0, 1])), max(abs(a - b) for a, b in zip(gx, [1, 0, 0])))
-            cond = math.sqrt(sum(x * x for x in nx)) / lx
-            note("new_axes_maps", e / cond)
-            note("new_axes_norm", abs(nq - 1))
-            if not abs(nq - 1) <= 1e-13 or not e <= 1e-13 * cond:
-                nonunit = abs(lz - 1) > 1e-12 and abs(dp) > 1e-12 * math.sqrt(sum(x * x for x in nx))
-                fails.append(("F18:to_new_axes-nonunit-newz" if nonunit else "new-axes",
-                              "to_new_axes does not map newz->z, newx->x / not unit (|newz| = %.3g, newx not perpendicular: %s)" % (lz, nonunit),
-                              dict(newz=nz, newx=nx, q=ql(q), gz=gz, gx=gx)))
-        # slerp
-        q1, q2 = runit(rng), runit(rng)
-        if i % 4 == 0:
-            q2 = list(q1)
-        if i % 4 == 1:
-            q2 = [-x for x in q1]
-        if i % 4 == 2:
-            eps = 10 ** -rng.uniform(3, 9)
-            q2 = [x + eps * rng.normal() for x in q1]
-        t = rng.choice([0.0, 1.0, 0.5, rng.uniform(0, 1)])
-        qsl = F["rotation_slerp"](mkq(q1), mkq(q2), t)
-        add("slerp " + hv(1e-4, 0.5, *q1, *q2, t), ql(qsl), "rotation_slerp")
-        c.count(("slerp", i % 40))
+            note("orbit_MD2.121", e)
+            if not abs(nq - 1) <= 1e-13 or not e <= 1e-13:
+                fails.append(("orbit", "Rotation.orbit is not Murray-Dermott 2.121 / not unit", dict(Omega=Om, inc=inc, omega=om, q=ql(q), v=v, got=got, want=want)))
+            # to_new_axes
+            kind = i % 6
+            if kind == 0:
+                nz = rng.choice([[0.0, 0.0, -1.0], [0.0, 0.0, 1.0], [0.0, 0.0, -3.0], [1.0, 0.0, 0.0], [0.0, -2.0, 0.0]])
+            else:
+                nz = rvec(rng)
+            nx = rvec(rng)
+            if kind == 1:   # newx such that the rotated newx is antiparallel to x
+                nx = [-1.0, 0.0, 0.0] if nz[0] == 0 else nx
+            if kind == 2:
+                nz = [0.0, 0.0, -1.0]; nx = [-1.0, 0.0, 0.0]
+            if i == 0:
+                nz = [0.0, 0.0, 2.0]; nx = [1.0, 0.0, 1.0]     # witness of c20_to_new_axes_F18_negation
+            q = F["rotation_init_to_new_axes"](V(*nz), V(*nx))
+            for vv in ("00", "10", "01", "11"):
+                lines.append("newaxes" + vv + " " + hv(*nz, *nx)); expect.append(" ".join(d2h(x) for x in ql(q))); meta.append(("newaxes" + vv, "newaxes"))
+            c.count(("new_axes", i % 40))
+            lz = math.sqrt(sum(x * x for x in nz))
+            zn = [x / lz for x in nz]
+            dp = sum(a * b for a, b in zip(zn, nx))
+            xo = [a - dp * b for a, b in zip(nx, zn)]
+            lx = math.sqrt(sum(x * x for x in xo))
+            if lx > 1e-6 * math.sqrt(sum(x * x for x in nx)) and all(x == x for x in ql(q)):
+                xn = [x / lx for x in xo]
+                nq = float(sum(Fr(x) ** 2 for x in ql(q)))
+                gz = vl(F["vec3d_rotate"](V(*zn), q))
+                gx = vl(F["vec3d_rotate"](V(*xn), q))
+                e = max(max(abs(a - b) for a, b in zip(gz, [0, 0, 1])), max(abs(a - b) for a, b in zip(gx, [1, 0, 0])))
+                cond = math.sqrt(sum(x * x for x in nx)) / lx
+                note("new_axes_maps", e / cond)
+                note("new_axes_norm", abs(nq - 1))
+                if not abs(nq - 1) <= 1e-13 or not e <= 1e-13 * cond:
+                    nonunit = abs(lz - 1) > 1e-12 and abs(dp) > 1e-12 * math.sqrt(sum(x * x for x in nx))
+                    if nonunit:
+                        # signature of the known defect (theorem c20_to_new_axes_F18_negation): a unit quaternion
+                        # that takes the *wrongly* orthogonalised newx - (newz.newx) zhat to the x axis
+                        d0 = sum(a * b for a, b in zip(nz, nx))
+                        xw = [a - d0 * b for a, b in zip(nx, zn)]
+                        lw = math.sqrt(sum(x * x for x in xw))
+                        gw = vl(F["vec3d_rotate"](V(*[x / lw for x in xw]), q)) if lw > 0 else [float("nan")] * 3
+                        sig_ok = abs(nq - 1) <= 1e-13 and max(abs(a - b) for a, b in zip(gw, [1, 0, 0])) <= 1e-12 * max(1.0, math.sqrt(sum(x * x for x in nx)) / lw)
+                        nonunit = sig_ok
+                    fails.append(("F18:to_new_axes-nonunit-newz" if nonunit else "new-axes",
+                                  "to_new_axes does not map newz->z, newx->x / not unit (|newz| = %.3g, newx not perpendicular: %s)" % (lz, nonunit),
+                                  dict(newz=nz, newx=nx, q=ql(q), gz=gz, gx=gx)))
+            # slerp
+            q1, q2 = runit(rng), runit(rng)
+            if i % 4 == 0:
+                q2 = list(q1)
+            if i % 4 == 1:
+                q2 = [-x for x in q1]
+            if i % 4 == 2:
+                eps = 10 ** -rng.uniform(3, 9)
+                q2 = [x + eps * rng.normal() for x in q1]
+            t = rng.choice([0.0, 1.0, 0.5, rng.uniform(0, 1)])
+            qsl = F["rotation_slerp"](mkq(q1), mkq(q2), t)
+            add("slerp " + hv(1e-4, 0.5, *q1, *q2, t), ql(qsl), "rotation_slerp")
+            c.count(("slerp", i % 40))
+            cs = math.fsum(a * b for a, b in zip(q1, q2))
+            if abs(cs) < 1 - 1e-6 and abs(math.fsum(a * a for a in q1) - 1) < 1e-12 and abs(math.fsum(a * a for a in q2) - 1) < 1e-12:
+                # interpolation contract: unit, at angle t*theta from q1 and (1-t)*theta from q2 on the great circle
+                th = math.acos(cs)
+                res = ql(qsl)
+                sn = math.sin(th)
+                e = max(abs(math.fsum(a * a for a in res) - 1),
+                        abs(math.fsum(a * b for a, b in zip(q1, res)) - math.cos(t * th)),
+                        abs(math.fsum(a * b for a, b in zip(q2, res)) - math.cos((1 - t) * th))) * sn
+                note("slerp_great_circle", e)
+                if not e <= 1e-12:
+                    fails.append(("slerp", "slerp result is not on the great circle at parameter t", dict(q1=q1, q2=q2, t=t, got=res)))
+        except (ValueError, OverflowError, ZeroDivisionError) as ex:
+            _lc = locals()
+            fails.append(("nonfinite:rotation-constructors", "the real code returned a non-finite value where the oracle expects a number (%r)" % (ex,),
+                          {k_: repr(_lc[k_])[:400] for k_ in ['ang', 'ax', 'Om', 'inc', 'om', 'nz', 'nx', 'q1', 'q2', 't'] if k_ in _lc}))
 
     # ---------------- run the model
     c.log("rotations: %d model lines through drv_c20" % len(lines))
@@ -500,6 +550,12 @@ def rotations(c, rebound, exe):
         if [d2h(x) for x in [r.ix, r.iy, r.iz, r.r]] != [d2h(x) for x in qv]:
             c.corr_break("rebound.Rotation(fromv, tov) differs from reb_rotation_init_from_to", dict(f=f, t=t))
             break
+        lf = math.sqrt(sum(x * x for x in f)); lt_ = math.sqrt(sum(x * x for x in t))
+        if cls not in ("antiparallel-exact", "antiparallel-near") and 1e-100 < lf < 1e100 and 1e-100 < lt_ < 1e100:
+            img = r * f
+            e = max(abs(a / lf - b / lt_) for a, b in zip([img.x, img.y, img.z], t))
+            if not e <= 1e-12:
+                fails.append(("py-from_to", "rebound.Rotation(fromv=f, tov=t) * f is not along t", dict(fromv=f, tov=t, image=[img.x, img.y, img.z])))
         r2 = rebound.Rotation.from_to(f, t)
         v = r2 * [1.0, 2.0, 3.0]
         w = vl(F["vec3d_rotate"](V(1.0, 2.0, 3.0), mkq(qv)))
@@ -682,178 +738,183 @@ def frame(c, rebound, exe):
     nsim = 1500 if c.thorough else 250
     untouched_hel = 0
     for case in range(nsim):
-        r = rng.fork()
-        nv = r.choice([0, 0, 1, 2, 3, 4])
-        sim, N, cfgs = make_sim(r, nv)
-        pre = snapshot(sim)
-        ncfg = sim.N_var_config
-        vc = [(sim.var_config[v].order, sim.var_config[v].index, sim.var_config[v].testparticle,
-               sim.var_config[v].index_1st_order_a, sim.var_config[v].index_1st_order_b) for v in range(ncfg)]
-        comp = clib.reb_simulation_com(ctypes.byref(sim))
-        M = comp.m
-        hist["N=%d,cfgs=%d" % (min(N, 8), ncfg)] = hist.get("N=%d,cfgs=%d" % (min(N, 8), ncfg), 0) + 1
-        # ---- exact oracle for the centre of mass and its derivatives
-        ms = [Fr(pre[i][0]) for i in range(N)]
-        Mx = sum(ms)
-        # ---------------- move_to_com
-        sim2 = sim.copy()
-        clib.reb_simulation_move_to_com(ctypes.byref(sim2))
-        post = snapshot(sim2)
-        for ci, k in enumerate(COMPS6):
-            col = 1 + ci
-            add("com " + " ".join(hv(pre[i][0], pre[i][col]) for i in range(N)), [M, getattr(comp, k)], ("com", k, N))
-            add("tocom " + " ".join(hv(pre[i][0], pre[i][col]) for i in range(N)), [post[i][col] for i in range(N)], ("move_to_com", k, N))
-            for (order, index, tp, ia, ib) in vc:
-                if tp >= 0:
-                    # test-particle variations are not shifted
-                    if d2h(post[index][col]) != d2h(pre[index][col]):
-                        fails.append(("com-testparticle-var", "move_to_com changed a test-particle variation", dict(pre=pre, post=post, index=index)))
-                    continue
-                if order == 1:
-                    toks = []
-                    for i in range(N):
-                        toks += [pre[i][0], pre[i][col], pre[i + index][0], pre[i + index][col]]
-                    add("var1 " + hv(M, *toks), [post[i + index][col] for i in range(N)], ("move_to_com_var1", k, N))
-                else:
-                    toks = []
-                    for i in range(N):
-                        toks += [pre[i][0], pre[i][col], pre[i + ia][0], pre[i + ia][col], pre[i + ib][0], pre[i + ib][col],
-                                 pre[i + index][0], pre[i + index][col]]
-                    add("var2 " + hv(M, *toks), [post[i + index][col] for i in range(N)], ("move_to_com_var2", k, N))
-            # ---- search on the real code
-            xs = [Fr(pre[i][col]) for i in range(N)]
-            scale = max([abs(pre[i][col]) for i in range(sim.N)] + [1.0])
-            if Mx > 0:
-                X = sum(m * x for m, x in zip(ms, xs)) / Mx
-                e = max(abs(float(Fr(post[i][col]) - (xs[i] - X))) for i in range(N)) / scale
-                note("move_to_com_vs_exact", e)
-                resid = abs(float(sum(m * Fr(post[i][col]) for i, m in enumerate(ms)) / Mx)) / scale
-                note("com_after_move", resid)
-                if not e <= 1e-13 or not resid <= 1e-13:
-                    fails.append(("move-to-com", "after move_to_com the centre of mass is not at rest at the origin / particles not shifted by it",
-                                  dict(component=k, m=[pre[i][0] for i in range(N)], x=[pre[i][col] for i in range(N)], got=[post[i][col] for i in range(N)], err=e, resid=resid)))
-                # variational particles: exact truncated-polynomial arithmetic
+        try:
+            r = rng.fork()
+            nv = r.choice([0, 0, 1, 2, 3, 4])
+            sim, N, cfgs = make_sim(r, nv)
+            pre = snapshot(sim)
+            ncfg = sim.N_var_config
+            vc = [(sim.var_config[v].order, sim.var_config[v].index, sim.var_config[v].testparticle,
+                   sim.var_config[v].index_1st_order_a, sim.var_config[v].index_1st_order_b) for v in range(ncfg)]
+            comp = clib.reb_simulation_com(ctypes.byref(sim))
+            M = comp.m
+            hist["N=%d,cfgs=%d" % (min(N, 8), ncfg)] = hist.get("N=%d,cfgs=%d" % (min(N, 8), ncfg), 0) + 1
+            # ---- exact oracle for the centre of mass and its derivatives
+            ms = [Fr(pre[i][0]) for i in range(N)]
+            Mx = sum(ms)
+            # ---------------- move_to_com
+            sim2 = sim.copy()
+            clib.reb_simulation_move_to_com(ctypes.byref(sim2))
+            post = snapshot(sim2)
+            for ci, k in enumerate(COMPS6):
+                col = 1 + ci
+                add("com " + " ".join(hv(pre[i][0], pre[i][col]) for i in range(N)), [M, getattr(comp, k)], ("com", k, N))
+                add("tocom " + " ".join(hv(pre[i][0], pre[i][col]) for i in range(N)), [post[i][col] for i in range(N)], ("move_to_com", k, N))
                 for (order, index, tp, ia, ib) in vc:
                     if tp >= 0:
+                        # test-particle variations are not shifted
+                        if d2h(post[index][col]) != d2h(pre[index][col]):
+                            fails.append(("com-testparticle-var", "move_to_com changed a test-particle variation", dict(pre=pre, post=post, index=index)))
                         continue
                     if order == 1:
-                        mt = [T2(pre[i][0], pre[i + index][0]) for i in range(N)]
-                        xt = [T2(pre[i][col], pre[i + index][col]) for i in range(N)]
+                        toks = []
+                        for i in range(N):
+                            toks += [pre[i][0], pre[i][col], pre[i + index][0], pre[i + index][col]]
+                        add("var1 " + hv(M, *toks), [post[i + index][col] for i in range(N)], ("move_to_com_var1", k, N))
                     else:
-                        mt = [T2(pre[i][0], pre[i + ia][0], pre[i + ib][0], pre[i + index][0]) for i in range(N)]
-                        xt = [T2(pre[i][col], pre[i + ia][col], pre[i + ib][col], pre[i + index][col]) for i in range(N)]
-                    S = T2()
-                    Mt = T2()
-                    for a_, b_ in zip(mt, xt):
-                        S = S + a_ * b_
-                        Mt = Mt + a_
-                    Xt = S / Mt
-                    want = [(xt[i] - Xt) for i in range(N)]
-                    wv = [float(w.ca if order == 1 else w.cab) for w in want]
-                    mag = max([abs(w) for w in wv] + [scale]) * max(1.0, float(sum(abs(Fr(pre[i + index][0])) for i in range(N)) / Mx)) ** 2 \
-                        * max(1.0, float(sum(abs(m) for m in ms) / Mx))
-                    e = max(abs(post[i + index][col] - wv[i]) for i in range(N)) / mag
-                    note("move_to_com_var%d_vs_exact_derivative" % order, e)
-                    if not e <= 1e-11:
-                        fails.append(("move-to-com-var%d" % order, "order-%d variational particles are not the derivative of the shifted coordinates" % order,
-                                      dict(component=k, order=order, index=index, ia=ia, ib=ib, N=N, pre=pre, got=[post[i + index][col] for i in range(N)], want=wv)))
+                        toks = []
+                        for i in range(N):
+                            toks += [pre[i][0], pre[i][col], pre[i + ia][0], pre[i + ia][col], pre[i + ib][0], pre[i + ib][col],
+                                     pre[i + index][0], pre[i + index][col]]
+                        add("var2 " + hv(M, *toks), [post[i + index][col] for i in range(N)], ("move_to_com_var2", k, N))
+                # ---- search on the real code
+                xs = [Fr(pre[i][col]) for i in range(N)]
+                scale = max([abs(pre[i][col]) for i in range(sim.N)] + [1.0])
+                if Mx > 0:
+                    X = sum(m * x for m, x in zip(ms, xs)) / Mx
+                    e = max(abs(float(Fr(post[i][col]) - (xs[i] - X))) for i in range(N)) / scale
+                    note("move_to_com_vs_exact", e)
+                    resid = abs(float(sum(m * Fr(post[i][col]) for i, m in enumerate(ms)) / Mx)) / scale
+                    note("com_after_move", resid)
+                    if not e <= 1e-13 or not resid <= 1e-13:
+                        fails.append(("move-to-com", "after move_to_com the centre of mass is not at rest at the origin / particles not shifted by it",
+                                      dict(component=k, m=[pre[i][0] for i in range(N)], x=[pre[i][col] for i in range(N)], got=[post[i][col] for i in range(N)], err=e, resid=resid)))
+                    # variational particles: exact truncated-polynomial arithmetic
+                    for (order, index, tp, ia, ib) in vc:
+                        if tp >= 0:
+                            continue
+                        if order == 1:
+                            mt = [T2(pre[i][0], pre[i + index][0]) for i in range(N)]
+                            xt = [T2(pre[i][col], pre[i + index][col]) for i in range(N)]
+                        else:
+                            mt = [T2(pre[i][0], pre[i + ia][0], pre[i + ib][0], pre[i + index][0]) for i in range(N)]
+                            xt = [T2(pre[i][col], pre[i + ia][col], pre[i + ib][col], pre[i + index][col]) for i in range(N)]
+                        S = T2()
+                        Mt = T2()
+                        for a_, b_ in zip(mt, xt):
+                            S = S + a_ * b_
+                            Mt = Mt + a_
+                        Xt = S / Mt
+                        want = [(xt[i] - Xt) for i in range(N)]
+                        wv = [float(w.ca if order == 1 else w.cab) for w in want]
+                        mag = max([abs(w) for w in wv] + [scale]) * max(1.0, float(sum(abs(Fr(pre[i + index][0])) for i in range(N)) / Mx)) ** 2 \
+                            * max(1.0, float(sum(abs(m) for m in ms) / Mx))
+                        e = max(abs(post[i + index][col] - wv[i]) for i in range(N)) / mag
+                        note("move_to_com_var%d_vs_exact_derivative" % order, e)
+                        if not e <= 1e-11:
+                            fails.append(("move-to-com-var%d" % order, "order-%d variational particles are not the derivative of the shifted coordinates" % order,
+                                          dict(component=k, order=order, index=index, ia=ia, ib=ib, N=N, pre=pre, got=[post[i + index][col] for i in range(N)], want=wv)))
+                else:
+                    # total mass zero: com is (0,0), nothing moves
+                    if any(d2h(post[i][col]) != d2h(pre[i][col] - 0.0) for i in range(N)):
+                        fails.append(("move-to-com-massless", "move_to_com moved a system without mass", dict(pre=pre, post=post)))
+                # pairwise differences unchanged to rounding
+                if N >= 2:
+                    dmax = 0.0
+                    for i in range(1, N):
+                        d0 = Fr(pre[i][col]) - Fr(pre[0][col])
+                        d1 = Fr(post[i][col]) - Fr(post[0][col])
+                        dmax = max(dmax, abs(float(d1 - d0)) / scale)
+                    note("move_to_com_pair_differences", dmax)
+                    if not dmax <= 1e-14:
+                        fails.append(("move-to-com-diff", "move_to_com changes relative coordinates", dict(component=k, pre=[pre[i][col] for i in range(N)], post=[post[i][col] for i in range(N)])))
+            if any(post[i][0] != pre[i][0] for i in range(sim.N)):
+                fails.append(("move-to-com-mass", "move_to_com changed a mass", dict(pre=pre, post=post)))
+            c.count(("move_to_com", N, tuple(o for o, *_ in vc), case % 4), nontrivial=N >= 2)
+            # ---------------- move_to_hel
+            sim3 = sim.copy()
+            clib.reb_simulation_move_to_hel(ctypes.byref(sim3))
+            posth = snapshot(sim3)
+            for ci, k in enumerate(COMPS6):
+                col = 1 + ci
+                add("tohel " + " ".join(hv(pre[i][0], pre[i][col]) for i in range(N)), [posth[i][col] for i in range(N)], ("move_to_hel", k, N))
+                if posth[0][col] != 0.0 or any(Fr(posth[i][col]) != Fr(pre[i][col] - pre[0][col]) for i in range(1, N)):
+                    fails.append(("move-to-hel", "move_to_hel: particle 0 not at the origin / others not relative to it", dict(component=k, pre=[pre[i][col] for i in range(N)], post=[posth[i][col] for i in range(N)])))
+            if all(posth[i] == pre[i] for i in range(N, sim.N)):
+                untouched_hel += 1 if sim.N > N else 0
             else:
-                # total mass zero: com is (0,0), nothing moves
-                if any(d2h(post[i][col]) != d2h(pre[i][col] - 0.0) for i in range(N)):
-                    fails.append(("move-to-com-massless", "move_to_com moved a system without mass", dict(pre=pre, post=post)))
-            # pairwise differences unchanged to rounding
-            if N >= 2:
-                dmax = 0.0
-                for i in range(1, N):
-                    d0 = Fr(pre[i][col]) - Fr(pre[0][col])
-                    d1 = Fr(post[i][col]) - Fr(post[0][col])
-                    dmax = max(dmax, abs(float(d1 - d0)) / scale)
-                note("move_to_com_pair_differences", dmax)
-                if not dmax <= 1e-14:
-                    fails.append(("move-to-com-diff", "move_to_com changes relative coordinates", dict(component=k, pre=[pre[i][col] for i in range(N)], post=[post[i][col] for i in range(N)])))
-        if any(post[i][0] != pre[i][0] for i in range(sim.N)):
-            fails.append(("move-to-com-mass", "move_to_com changed a mass", dict(pre=pre, post=post)))
-        c.count(("move_to_com", N, tuple(o for o, *_ in vc), case % 4), nontrivial=N >= 2)
-        # ---------------- move_to_hel
-        sim3 = sim.copy()
-        clib.reb_simulation_move_to_hel(ctypes.byref(sim3))
-        posth = snapshot(sim3)
-        for ci, k in enumerate(COMPS6):
-            col = 1 + ci
-            add("tohel " + " ".join(hv(pre[i][0], pre[i][col]) for i in range(N)), [posth[i][col] for i in range(N)], ("move_to_hel", k, N))
-            if posth[0][col] != 0.0 or any(Fr(posth[i][col]) != Fr(pre[i][col] - pre[0][col]) for i in range(1, N)):
-                fails.append(("move-to-hel", "move_to_hel: particle 0 not at the origin / others not relative to it", dict(component=k, pre=[pre[i][col] for i in range(N)], post=[posth[i][col] for i in range(N)])))
-        if all(posth[i] == pre[i] for i in range(N, sim.N)):
-            untouched_hel += 1 if sim.N > N else 0
-        else:
-            c.cov["move_to_hel_touches_variational_particles"] = True
-        c.count(("move_to_hel", N, case % 4), nontrivial=N >= 2)
-        # ---------------- imul / iadd / isub on all N particles (real + variational)
-        other, _, _ = make_sim(r, 0) if r.chance(0.2) else (None, None, None)
-        simb = sim.copy()
-        for i in range(simb.N):
-            for k in COMPS6:
-                setattr(simb.particles[i], k, r.normal())
-        if other is not None and other.N != sim.N:
-            simb = other
-        preb = snapshot(simb)
-        sa = sim.copy()
-        rc = clib.reb_simulation_iadd(ctypes.byref(sa), ctypes.byref(simb))
-        pa = snapshot(sa)
-        ss = sim.copy()
-        rc2 = clib.reb_simulation_isub(ctypes.byref(ss), ctypes.byref(simb))
-        psub = snapshot(ss)
-        for ci, k in enumerate(COMPS6):
-            col = 1 + ci
-            xs = [pre[i][col] for i in range(sim.N)]
-            ys = [preb[i][col] for i in range(simb.N)]
-            exp = ("ok " + " ".join(d2h(pa[i][col]) for i in range(sim.N))) if rc == 0 else "err -1"
-            lines.append("iadd %d %s" % (sim.N, hv(*xs, *ys))); expect.append(exp); meta.append(("iadd", k, sim.N))
-            exp = ("ok " + " ".join(d2h(psub[i][col]) for i in range(sim.N))) if rc2 == 0 else "err -1"
-            lines.append("isub %d %s" % (sim.N, hv(*xs, *ys))); expect.append(exp); meta.append(("isub", k, sim.N))
-        if (rc == -1) != (sim.N != simb.N) or (rc2 == -1) != (sim.N != simb.N):
-            fails.append(("iadd-size", "iadd/isub size check wrong", dict(N=sim.N, N2=simb.N, rc=rc, rc2=rc2)))
-        if rc == -1 and pa != pre:
-            fails.append(("iadd-size", "rejected iadd modified the simulation", dict(N=sim.N, N2=simb.N)))
-        if rc == 0:
+                c.cov["move_to_hel_touches_variational_particles"] = True
+            c.count(("move_to_hel", N, case % 4), nontrivial=N >= 2)
+            # ---------------- imul / iadd / isub on all N particles (real + variational)
+            other, _, _ = make_sim(r, 0) if r.chance(0.2) else (None, None, None)
+            simb = sim.copy()
+            for i in range(simb.N):
+                for k in COMPS6:
+                    setattr(simb.particles[i], k, r.normal())
+            if other is not None and other.N != sim.N:
+                simb = other
+            preb = snapshot(simb)
+            sa = sim.copy()
+            rc = clib.reb_simulation_iadd(ctypes.byref(sa), ctypes.byref(simb))
+            pa = snapshot(sa)
+            ss = sim.copy()
+            rc2 = clib.reb_simulation_isub(ctypes.byref(ss), ctypes.byref(simb))
+            psub = snapshot(ss)
+            for ci, k in enumerate(COMPS6):
+                col = 1 + ci
+                xs = [pre[i][col] for i in range(sim.N)]
+                ys = [preb[i][col] for i in range(simb.N)]
+                exp = ("ok " + " ".join(d2h(pa[i][col]) for i in range(sim.N))) if rc == 0 else "err -1"
+                lines.append("iadd %d %s" % (sim.N, hv(*xs, *ys))); expect.append(exp); meta.append(("iadd", k, sim.N))
+                exp = ("ok " + " ".join(d2h(psub[i][col]) for i in range(sim.N))) if rc2 == 0 else "err -1"
+                lines.append("isub %d %s" % (sim.N, hv(*xs, *ys))); expect.append(exp); meta.append(("isub", k, sim.N))
+            if (rc == -1) != (sim.N != simb.N) or (rc2 == -1) != (sim.N != simb.N):
+                fails.append(("iadd-size", "iadd/isub size check wrong", dict(N=sim.N, N2=simb.N, rc=rc, rc2=rc2)))
+            if rc == -1 and pa != pre:
+                fails.append(("iadd-size", "rejected iadd modified the simulation", dict(N=sim.N, N2=simb.N)))
+            if rc == 0:
+                for i in range(sim.N):
+                    for ci in range(6):
+                        if Fr(pa[i][1 + ci]) != Fr(pre[i][1 + ci] + preb[i][1 + ci]) or Fr(psub[i][1 + ci]) != Fr(pre[i][1 + ci] - preb[i][1 + ci]) \
+                                or pa[i][0] != pre[i][0]:
+                            fails.append(("iadd", "iadd/isub is not the component-wise sum/difference on particle %d" % i, dict(i=i, N=sim.N, N_var=sim.N_var)))
+                            break
+                # Python operators
+                try:
+                    sp = sim + simb
+                    sm = sim - simb
+                    if snapshot(sp) != pa or snapshot(sm) != psub or snapshot(sim) != pre:
+                        fails.append(("py-add", "Simulation.__add__/__sub__ differ from iadd/isub or modify the operand", dict(N=sim.N)))
+                except Exception as ex:
+                    fails.append(("py-add", "Simulation + Simulation raised %r" % (ex,), dict(N=sim.N)))
+            else:
+                try:
+                    sim + simb
+                    fails.append(("py-add", "Simulation + Simulation of different N did not raise", dict(N=sim.N, N2=simb.N)))
+                except RuntimeError:
+                    pass
+            s1, s2 = r.normal() * 3, r.normal() * 3
+            sm_ = sim.copy()
+            clib.reb_simulation_imul(ctypes.byref(sm_), ctypes.c_double(s1), ctypes.c_double(s2))
+            pm = snapshot(sm_)
+            for ci, k in enumerate(COMPS6):
+                col = 1 + ci
+                add("imul " + hv(s1 if ci < 3 else s2, *[pre[i][col] for i in range(sim.N)]), [pm[i][col] for i in range(sim.N)], ("imul", k, sim.N))
             for i in range(sim.N):
-                for ci in range(6):
-                    if Fr(pa[i][1 + ci]) != Fr(pre[i][1 + ci] + preb[i][1 + ci]) or Fr(psub[i][1 + ci]) != Fr(pre[i][1 + ci] - preb[i][1 + ci]) \
-                            or pa[i][0] != pre[i][0]:
-                        fails.append(("iadd", "iadd/isub is not the component-wise sum/difference on particle %d" % i, dict(i=i, N=sim.N, N_var=sim.N_var)))
-                        break
-            # Python operators
-            try:
-                sp = sim + simb
-                sm = sim - simb
-                if snapshot(sp) != pa or snapshot(sm) != psub or snapshot(sim) != pre:
-                    fails.append(("py-add", "Simulation.__add__/__sub__ differ from iadd/isub or modify the operand", dict(N=sim.N)))
-            except Exception as ex:
-                fails.append(("py-add", "Simulation + Simulation raised %r" % (ex,), dict(N=sim.N)))
-        else:
-            try:
-                sim + simb
-                fails.append(("py-add", "Simulation + Simulation of different N did not raise", dict(N=sim.N, N2=simb.N)))
-            except RuntimeError:
-                pass
-        s1, s2 = r.normal() * 3, r.normal() * 3
-        sm_ = sim.copy()
-        clib.reb_simulation_imul(ctypes.byref(sm_), ctypes.c_double(s1), ctypes.c_double(s2))
-        pm = snapshot(sm_)
-        for ci, k in enumerate(COMPS6):
-            col = 1 + ci
-            add("imul " + hv(s1 if ci < 3 else s2, *[pre[i][col] for i in range(sim.N)]), [pm[i][col] for i in range(sim.N)], ("imul", k, sim.N))
-        for i in range(sim.N):
-            if pm[i][0] != pre[i][0] or any(pm[i][1 + ci] != pre[i][1 + ci] * (s1 if ci < 3 else s2) for ci in range(6)):
-                fails.append(("imul", "imul is not the component-wise scaling on particle %d" % i, dict(i=i, N=sim.N, N_var=sim.N_var, s1=s1, s2=s2)))
-                break
-        sq = sim * s1
-        sd = sim / s1
-        if snapshot(sq) != snapshot_scaled(pre, s1) or snapshot(sd) != snapshot_scaled(pre, 1. / s1):
-            fails.append(("py-mul", "Simulation * scalar or / scalar is not the scaling of all coordinates", dict(s=s1, N=sim.N)))
-        c.count(("imul/iadd/isub", sim.N, sim.N_var, case % 4))
-        if case < 3:
-            c.sample({"N_real": N, "var_configs": vc, "masses": [pre[i][0] for i in range(N)], "x": [pre[i][1] for i in range(N)]})
+                if pm[i][0] != pre[i][0] or any(pm[i][1 + ci] != pre[i][1 + ci] * (s1 if ci < 3 else s2) for ci in range(6)):
+                    fails.append(("imul", "imul is not the component-wise scaling on particle %d" % i, dict(i=i, N=sim.N, N_var=sim.N_var, s1=s1, s2=s2)))
+                    break
+            sq = sim * s1
+            sd = sim / s1
+            if snapshot(sq) != snapshot_scaled(pre, s1) or snapshot(sd) != snapshot_scaled(pre, 1. / s1):
+                fails.append(("py-mul", "Simulation * scalar or / scalar is not the scaling of all coordinates", dict(s=s1, N=sim.N)))
+            c.count(("imul/iadd/isub", sim.N, sim.N_var, case % 4))
+            if case < 3:
+                c.sample({"N_real": N, "var_configs": vc, "masses": [pre[i][0] for i in range(N)], "x": [pre[i][1] for i in range(N)]})
+        except (ValueError, OverflowError, ZeroDivisionError) as ex:
+            _lc = locals()
+            fails.append(("nonfinite:frame", "the real code returned a non-finite value where the oracle expects a number (%r)" % (ex,),
+                          {k_: repr(_lc[k_])[:400] for k_ in ['pre', 'vc', 'N'] if k_ in _lc}))
 
     c.log("frame: %d model lines through drv_c20" % len(lines))
     got = run_driver(exe, lines)
@@ -1011,121 +1072,126 @@ def units(c, rebound, exe, parsed, ref):
             "vx": (1, -1, 0), "vy": (1, -1, 0), "vz": (1, -1, 0), "ax": (1, -2, 0), "ay": (1, -2, 0), "az": (1, -2, 0)}
     ntarget = 3 if c.thorough else 1
     for idx, (l, t, m) in enumerate(triples):
-        sim = rebound.Simulation()
-        spell = [l, t, m]
-        rng.shuffle(spell)
-        if idx % 3 == 0:
-            spell = [s_.upper() if rng.chance(0.5) else s_.capitalize() for s_ in spell]
         try:
-            sim.units = tuple(spell)
-        except Exception as ex:
-            fails.append(("units-setter", "sim.units = %r raised %r" % (spell, ex), dict(units=spell)))
-            continue
-        c.count(("triple", l, t, m))
-        Gx = Gq * exactM[m] * exactT[t] ** 2 / exactL[l] ** 3
-        e = abs(float((Fr(sim.G) - Gx) / Gx))
-        note("G_vs_exact_formula", e)
-        if not e <= 1e-15 * 4:
-            fails.append(("units-G", "sim.G for units %r is not G_SI*M*T^2/L^3" % ((l, t, m),), dict(units=(l, t, m), G=sim.G, want=float(Gx))))
-        # physical value from the independent reference.  G/G_SI = M T^2/L^3 involves only the unit
-        # values (for the GM-defined masses M = GM/G_SI with the module's own G_SI), so the tolerance is
-        # that of the units alone and a wrong constant for one unit shows up in every triple that uses it
-        if l in refL and t in refT and (m in ref["masses"] or m in ref["GM"]):
-            if m in ref["masses"]:
-                rm, rmt = ref["masses"][m]
-            else:
-                rm, rmt = ref["GM"][m][0] / Gq, ref["GM"][m][1]
-            Kr = rm * refT[t][0] ** 2 / refL[l][0] ** 3
-            tol = float(rmt + 2 * refT[t][1] + 3 * refL[l][1]) + 1e-14
-            e = abs(float((Fr(sim.G) / Gq - Kr) / Kr))
-            note("G_over_GSI_vs_reference/tolerance", e / tol)
-            if not e <= tol:
-                culprit = [u for u, tab, rf in ((l, Ls, refL), (t, Ts, refT)) if abs(float((Fr(tab[u]) - rf[u][0]) / rf[u][0])) > float(rf[u][1]) + 1e-15]
-                fails.append(("units-value:" + (culprit[0] if culprit else m),
-                              "sim.G for units %r disagrees with the reference constants by %.3g (tolerance %.3g): wrong value for %s" % ((l, t, m), e, tol, culprit or [m]),
-                              dict(units=(l, t, m), G=sim.G, G_over_GSI_reference=float(Kr), rel=e, tol=tol)))
-        back = sim.units
-        if back != {"length": l, "time": t, "mass": m}:
-            fails.append(("units-readback", "sim.units reads back %r after setting %r" % (back, (l, t, m)), dict(set=(l, t, m), got=back)))
-        # a two-body system given in SI, expressed in these units with exact rationals
-        def to_units(L, Tt, Mm):
-            return dict(m1=float(m1_SI / Mm), m2=float(m2_SI / Mm), a=float(a_SI / L))
-        q0 = to_units(exactL[l], exactT[t], exactM[m])
-        v_SI = math.sqrt(float(Gq) * float(m1_SI + m2_SI) / float(a_SI))
-        sim.add(m=q0["m1"], r=float(Fr("7e8") / exactL[l]))
-        sim.add(m=q0["m2"], x=q0["a"], vy=float(Fr(v_SI) * exactT[t] / exactL[l]), r=float(Fr("7e7") / exactL[l]))
-        sim.particles[1].ax = float(Fr("-5.9e-3") * exactT[t] ** 2 / exactL[l])   # some acceleration to convert
-        P1 = sim.particles[1].orbit(primary=sim.particles[0]).P * Ts[t]
-        e = abs(P1 - Pw) / Pw
-        note("period_SI_invariance", e)
-        if not e <= 1e-12:
-            fails.append(("units-period", "orbital period in seconds depends on the unit system %r: %.17g vs %.17g" % ((l, t, m), P1, Pw), dict(units=(l, t, m), P=P1, want=Pw)))
-        before = [[getattr(p, f) for f in fields] for p in sim.particles]
-        for kk in range(ntarget):
-            l2, t2, m2 = triples[perm[(idx + kk * 577) % len(triples)]]
+            sim = rebound.Simulation()
+            spell = [l, t, m]
+            rng.shuffle(spell)
+            if idx % 3 == 0:
+                spell = [s_.upper() if rng.chance(0.5) else s_.capitalize() for s_ in spell]
             try:
-                sim.convert_particle_units(l2, t2, m2)
+                sim.units = tuple(spell)
             except Exception as ex:
-                fails.append(("units-convert", "convert_particle_units(%r) raised %r" % ((l2, t2, m2), ex), dict(frm=(l, t, m), to=(l2, t2, m2))))
-                break
-            c.count(("convert", l2, t2, m2))
-            mid = [[getattr(p, f) for f in fields] for p in sim.particles]
-            G2 = Gq * exactM[m2] * exactT[t2] ** 2 / exactL[l2] ** 3
-            if not abs(float((Fr(sim.G) - G2) / G2)) <= 4e-15 or sim.units != {"length": l2, "time": t2, "mass": m2}:
-                fails.append(("units-convert-G", "after convert_particle_units(%r) G / units are not those of the new system" % ((l2, t2, m2),), dict(frm=(l, t, m), to=(l2, t2, m2), G=sim.G, units=sim.units)))
-            worst_e = 0.0
-            for pi in range(2):
-                for fi, f in enumerate(fields):
-                    dl, dt_, dm = dims[f]
-                    fac = (exactL[l] / exactL[l2]) ** dl * (exactT[t] / exactT[t2]) ** dt_ * (exactM[m] / exactM[m2]) ** dm
-                    want = Fr(before[pi][fi]) * fac
-                    if want != 0:
-                        worst_e = max(worst_e, abs(float((Fr(mid[pi][fi]) - want) / want)))
-                    elif mid[pi][fi] != 0:
-                        worst_e = float("inf")
-            note("convert_vs_exact", worst_e)
-            if not worst_e <= 2e-15:
-                fails.append(("units-convert-values", "convert_particle_units %r -> %r differs from the exact conversion by %.3g" % ((l, t, m), (l2, t2, m2), worst_e),
-                              dict(frm=(l, t, m), to=(l2, t2, m2), before=before, after=mid)))
-            P2 = sim.particles[1].orbit(primary=sim.particles[0]).P * Ts[t2]
-            e = abs(P2 - Pw) / Pw
+                fails.append(("units-setter", "sim.units = %r raised %r" % (spell, ex), dict(units=spell)))
+                continue
+            c.count(("triple", l, t, m))
+            Gx = Gq * exactM[m] * exactT[t] ** 2 / exactL[l] ** 3
+            e = abs(float((Fr(sim.G) - Gx) / Gx))
+            note("G_vs_exact_formula", e)
+            if not e <= 1e-15 * 4:
+                fails.append(("units-G", "sim.G for units %r is not G_SI*M*T^2/L^3" % ((l, t, m),), dict(units=(l, t, m), G=sim.G, want=float(Gx))))
+            # physical value from the independent reference.  G/G_SI = M T^2/L^3 involves only the unit
+            # values (for the GM-defined masses M = GM/G_SI with the module's own G_SI), so the tolerance is
+            # that of the units alone and a wrong constant for one unit shows up in every triple that uses it
+            if l in refL and t in refT and (m in ref["masses"] or m in ref["GM"]):
+                if m in ref["masses"]:
+                    rm, rmt = ref["masses"][m]
+                else:
+                    rm, rmt = ref["GM"][m][0] / Gq, ref["GM"][m][1]
+                Kr = rm * refT[t][0] ** 2 / refL[l][0] ** 3
+                tol = float(rmt + 2 * refT[t][1] + 3 * refL[l][1]) + 1e-14
+                e = abs(float((Fr(sim.G) / Gq - Kr) / Kr))
+                note("G_over_GSI_vs_reference/tolerance", e / tol)
+                if not e <= tol:
+                    culprit = [u for u, tab, rf in ((l, Ls, refL), (t, Ts, refT)) if abs(float((Fr(tab[u]) - rf[u][0]) / rf[u][0])) > float(rf[u][1]) + 1e-15]
+                    fails.append(("units-value:" + (culprit[0] if culprit else m),
+                                  "sim.G for units %r disagrees with the reference constants by %.3g (tolerance %.3g): wrong value for %s" % ((l, t, m), e, tol, culprit or [m]),
+                                  dict(units=(l, t, m), G=sim.G, G_over_GSI_reference=float(Kr), rel=e, tol=tol)))
+            back = sim.units
+            if back != {"length": l, "time": t, "mass": m}:
+                fails.append(("units-readback", "sim.units reads back %r after setting %r" % (back, (l, t, m)), dict(set=(l, t, m), got=back)))
+            # a two-body system given in SI, expressed in these units with exact rationals
+            def to_units(L, Tt, Mm):
+                return dict(m1=float(m1_SI / Mm), m2=float(m2_SI / Mm), a=float(a_SI / L))
+            q0 = to_units(exactL[l], exactT[t], exactM[m])
+            v_SI = math.sqrt(float(Gq) * float(m1_SI + m2_SI) / float(a_SI))
+            sim.add(m=q0["m1"], r=float(Fr("7e8") / exactL[l]))
+            sim.add(m=q0["m2"], x=q0["a"], vy=float(Fr(v_SI) * exactT[t] / exactL[l]), r=float(Fr("7e7") / exactL[l]))
+            sim.particles[1].ax = float(Fr("-5.9e-3") * exactT[t] ** 2 / exactL[l])   # some acceleration to convert
+            P1 = sim.particles[1].orbit(primary=sim.particles[0]).P * Ts[t]
+            e = abs(P1 - Pw) / Pw
             note("period_SI_invariance", e)
             if not e <= 1e-12:
-                fails.append(("units-period", "orbital period in seconds changes under convert_particle_units %r -> %r" % ((l, t, m), (l2, t2, m2)), dict(frm=(l, t, m), to=(l2, t2, m2), P=P2, want=Pw)))
-            # a third system, reached directly and through the second: transitivity
-            if kk == 0:
-                l3, t3, m3 = triples[perm[(idx + 991) % len(triples)]]
-                s_dir = rebound.Simulation()
-                s_dir.units = (l, t, m)
-                for row in before:
-                    s_dir.add(m=row[0], x=row[1], y=row[2], z=row[3], r=row[4], vx=row[5], vy=row[6], vz=row[7])
-                    s_dir.particles[-1].ax, s_dir.particles[-1].ay, s_dir.particles[-1].az = row[8], row[9], row[10]
-                s_dir.convert_particle_units(l3, t3, m3)
-                s_via = sim.copy()
-                s_via.convert_particle_units(l3, t3, m3)
-                et = 0.0
-                for pa_, pb_ in zip(s_dir.particles, s_via.particles):
-                    for f in fields:
-                        x1, x2 = getattr(pa_, f), getattr(pb_, f)
+                fails.append(("units-period", "orbital period in seconds depends on the unit system %r: %.17g vs %.17g" % ((l, t, m), P1, Pw), dict(units=(l, t, m), P=P1, want=Pw)))
+            before = [[getattr(p, f) for f in fields] for p in sim.particles]
+            for kk in range(ntarget):
+                l2, t2, m2 = triples[perm[(idx + kk * 577) % len(triples)]]
+                try:
+                    sim.convert_particle_units(l2, t2, m2)
+                except Exception as ex:
+                    fails.append(("units-convert", "convert_particle_units(%r) raised %r" % ((l2, t2, m2), ex), dict(frm=(l, t, m), to=(l2, t2, m2))))
+                    break
+                c.count(("convert", l2, t2, m2))
+                mid = [[getattr(p, f) for f in fields] for p in sim.particles]
+                G2 = Gq * exactM[m2] * exactT[t2] ** 2 / exactL[l2] ** 3
+                if not abs(float((Fr(sim.G) - G2) / G2)) <= 4e-15 or sim.units != {"length": l2, "time": t2, "mass": m2}:
+                    fails.append(("units-convert-G", "after convert_particle_units(%r) G / units are not those of the new system" % ((l2, t2, m2),), dict(frm=(l, t, m), to=(l2, t2, m2), G=sim.G, units=sim.units)))
+                worst_e = 0.0
+                for pi in range(2):
+                    for fi, f in enumerate(fields):
+                        dl, dt_, dm = dims[f]
+                        fac = (exactL[l] / exactL[l2]) ** dl * (exactT[t] / exactT[t2]) ** dt_ * (exactM[m] / exactM[m2]) ** dm
+                        want = Fr(before[pi][fi]) * fac
+                        if want != 0:
+                            worst_e = max(worst_e, abs(float((Fr(mid[pi][fi]) - want) / want)))
+                        elif mid[pi][fi] != 0:
+                            worst_e = float("inf")
+                note("convert_vs_exact", worst_e)
+                if not worst_e <= 2e-15:
+                    fails.append(("units-convert-values", "convert_particle_units %r -> %r differs from the exact conversion by %.3g" % ((l, t, m), (l2, t2, m2), worst_e),
+                                  dict(frm=(l, t, m), to=(l2, t2, m2), before=before, after=mid)))
+                P2 = sim.particles[1].orbit(primary=sim.particles[0]).P * Ts[t2]
+                e = abs(P2 - Pw) / Pw
+                note("period_SI_invariance", e)
+                if not e <= 1e-12:
+                    fails.append(("units-period", "orbital period in seconds changes under convert_particle_units %r -> %r" % ((l, t, m), (l2, t2, m2)), dict(frm=(l, t, m), to=(l2, t2, m2), P=P2, want=Pw)))
+                # a third system, reached directly and through the second: transitivity
+                if kk == 0:
+                    l3, t3, m3 = triples[perm[(idx + 991) % len(triples)]]
+                    s_dir = rebound.Simulation()
+                    s_dir.units = (l, t, m)
+                    for row in before:
+                        s_dir.add(m=row[0], x=row[1], y=row[2], z=row[3], r=row[4], vx=row[5], vy=row[6], vz=row[7])
+                        s_dir.particles[-1].ax, s_dir.particles[-1].ay, s_dir.particles[-1].az = row[8], row[9], row[10]
+                    s_dir.convert_particle_units(l3, t3, m3)
+                    s_via = sim.copy()
+                    s_via.convert_particle_units(l3, t3, m3)
+                    et = 0.0
+                    for pa_, pb_ in zip(s_dir.particles, s_via.particles):
+                        for f in fields:
+                            x1, x2 = getattr(pa_, f), getattr(pb_, f)
+                            if x1 != x2:
+                                et = max(et, abs(x1 - x2) / max(abs(x1), abs(x2)))
+                    note("convert_transitive", et)
+                    if not et <= 4e-15 or abs(s_dir.G - s_via.G) > 4e-15 * abs(s_dir.G):
+                        fails.append(("units-transitive", "conversion %r -> %r -> %r differs from the direct conversion by %.3g" % ((l, t, m), (l2, t2, m2), (l3, t3, m3), et),
+                                      dict(a=(l, t, m), b=(l2, t2, m2), c=(l3, t3, m3))))
+                sim.convert_particle_units(l, t, m)
+                after = [[getattr(p, f) for f in fields] for p in sim.particles]
+                er = 0.0
+                for ra, rb in zip(before, after):
+                    for x1, x2 in zip(ra, rb):
                         if x1 != x2:
-                            et = max(et, abs(x1 - x2) / max(abs(x1), abs(x2)))
-                note("convert_transitive", et)
-                if not et <= 4e-15 or abs(s_dir.G - s_via.G) > 4e-15 * abs(s_dir.G):
-                    fails.append(("units-transitive", "conversion %r -> %r -> %r differs from the direct conversion by %.3g" % ((l, t, m), (l2, t2, m2), (l3, t3, m3), et),
-                                  dict(a=(l, t, m), b=(l2, t2, m2), c=(l3, t3, m3))))
-            sim.convert_particle_units(l, t, m)
-            after = [[getattr(p, f) for f in fields] for p in sim.particles]
-            er = 0.0
-            for ra, rb in zip(before, after):
-                for x1, x2 in zip(ra, rb):
-                    if x1 != x2:
-                        er = max(er, abs(x1 - x2) / max(abs(x1), abs(x2)))
-            note("convert_there_and_back", er)
-            if not er <= 4e-15 or d2h(sim.G) != d2h(U.convert_G((l, t, m))):
-                fails.append(("units-roundtrip", "conversion %r -> %r and back does not return the particle data (%.3g)" % ((l, t, m), (l2, t2, m2), er),
-                              dict(frm=(l, t, m), via=(l2, t2, m2), before=before, after=after)))
-        if idx < 2:
-            c.sample({"units": (l, t, m), "G": sim.G, "period_s": P1})
+                            er = max(er, abs(x1 - x2) / max(abs(x1), abs(x2)))
+                note("convert_there_and_back", er)
+                if not er <= 4e-15 or d2h(sim.G) != d2h(U.convert_G((l, t, m))):
+                    fails.append(("units-roundtrip", "conversion %r -> %r and back does not return the particle data (%.3g)" % ((l, t, m), (l2, t2, m2), er),
+                                  dict(frm=(l, t, m), via=(l2, t2, m2), before=before, after=after)))
+            if idx < 2:
+                c.sample({"units": (l, t, m), "G": sim.G, "period_s": P1})
+        except (ValueError, OverflowError, ZeroDivisionError) as ex:
+            _lc = locals()
+            fails.append(("nonfinite:units", "the real code returned a non-finite value where the oracle expects a number (%r)" % (ex,),
+                          {k_: repr(_lc[k_])[:400] for k_ in ['l', 't', 'm'] if k_ in _lc}))
     # the setter must refuse to change units once particles exist
     sim = rebound.Simulation(); sim.units = ("au", "yr", "msun"); sim.add(m=1)
     try:
